@@ -202,6 +202,20 @@ def gen_discovery(src: Path, out: list[str]):
     if not (isinstance(dd, (tuple, list)) and all(isinstance(x, str) for x in dd)):
         raise Unsupported("discovery.DEFAULT_DELIMITERS")
     out.append("Definition default_delimiters : list str := [" + "; ".join(coq_str(x) for x in dd) + "].")
+    # the special case `uri.startswith(<lit>) and <lit> in uri` of _get_uri_prefix_to_luids (known finding K1)
+    fns = {n.name: n for n in tree.body if isinstance(n, ast.FunctionDef)}
+    fn = fns.get("_get_uri_prefix_to_luids")
+    if fn is None:
+        raise Unsupported("discovery._get_uri_prefix_to_luids missing")
+    special = []
+    for node in ast.walk(fn):
+        if isinstance(node, ast.If) and isinstance(node.test, ast.BoolOp) and isinstance(node.test.op, ast.And) and len(node.test.values) == 2:
+            a, b = node.test.values
+            if (isinstance(a, ast.Call) and isinstance(a.func, ast.Attribute) and a.func.attr == "startswith" and len(a.args) == 1
+                    and isinstance(a.args[0], ast.Constant) and isinstance(b, ast.Compare) and len(b.ops) == 1
+                    and isinstance(b.ops[0], ast.In) and isinstance(b.left, ast.Constant)):
+                special.append((a.args[0].value, b.left.value))
+    out.append("Definition special_cases : list (str * str) := [" + "; ".join(f"({coq_str(x)}, {coq_str(y)})" for x, y in special) + "].")
 
 
 def gen_mapping(src: Path, out: list[str]):
